@@ -97,8 +97,8 @@ func Meta() core.Meta {
 	q := ns*len(etypes)*len(exchanges) + 2*maxCode + 2*2*len(viaTCPCodes)
 	return core.Meta{
 		Engine: "c09", Property: "C09", Level: "fault_enumeration",
-		Rule:       "case = one run: a real client (keytab or password credential, one etype) performs an AS exchange, a TGS exchange or a referral chain against the reference KDC while exactly one reply is perturbed: a sealed or outer field changed (nonce +-1, cname, crealm, sname, srealm, ticket realm, addresses, authtime/starttime at and beyond the skew bound), sealed under another key / key usage / tag, ciphertext damaged, truncated, duplicated, replaced by the reply to the previous request, or replaced by a KRB-ERROR with each code 1..93; sweep = every single perturbation x 6 etypes x 3 exchanges + every error code x {AS,TGS} (thorough: x credential kind x pre-authentication flow); seeded runs add a second perturbation, hint layouts, transports and salts; distinct = distinct (exchange, flow, credential, etype, perturbations, outcome); non-trivial = a perturbation or network fault took effect",
-		SweepQuick: q, SweepThorough: q * 4,
+		Rule:       "case = one run: a real client (keytab or password credential, one etype) performs an AS exchange, a TGS exchange or a referral chain against the reference KDC while exactly one reply is perturbed: a sealed or outer field changed (nonce +-1, cname, crealm, sname, srealm, ticket realm, addresses, authtime/starttime at and beyond the skew bound), sealed under another key / key usage / tag, ciphertext damaged, truncated, duplicated, replaced by the reply to the previous request, or replaced by a KRB-ERROR with each code 1..93; sweep = every single perturbation x 6 etypes x 3 exchanges + every error code x {AS,TGS} (quick: keytab without and password with pre-authentication; thorough: two more credential/flow combinations); seeded runs add a second perturbation, hint layouts, transports and salts; distinct = distinct (exchange, flow, credential, etype, perturbations, outcome); non-trivial = a perturbation or network fault took effect",
+		SweepQuick: q * 2, SweepThorough: q * 4,
 		SeededQuick: 1500, SeededThorough: 100000,
 		WorkloadProbes: []string{"perturbed-reply-delivered", "krb-error-delivered", "stale-reply-delivered", "truncated-reply-delivered", "addresses-requested", "preauth-round-trip", "referral-followed", "honest-exchange"},
 		Components: map[string]string{
